@@ -51,8 +51,12 @@ def wrap(v):
     return v
 
 
+DECLINE = object()      # returned by a stub to let the real function run for this call
+
+
 class KitBase:
     symbolic = False
+    DECLINE = DECLINE
 
     # logical connectives usable in both modes
     def And(self, *xs):
@@ -418,7 +422,10 @@ class SymKit(KitBase):
 
         def hook(I, fn, args, kwargs, node):
             if fn is target:
-                return wrap(replacement(*[unwrap(a) for a in args], **{k: unwrap(v) for k, v in kwargs.items()}))
+                r = replacement(*[unwrap(a) for a in args], **{k: unwrap(v) for k, v in kwargs.items()})
+                if r is DECLINE:
+                    return _MISSING              # this call is executed for real (e.g. the outermost call of a recursive function)
+                return wrap(r)
             return _MISSING
         self.I.call_hooks.append(hook)
         try:
@@ -578,6 +585,12 @@ class SymKit(KitBase):
 
     def same_buffer(self, a, b):
         """Do two arrays share memory?"""
+        import numpy as np
+        na, nb = isinstance(a, np.ndarray), isinstance(b, np.ndarray)
+        if na and nb:
+            return bool(np.shares_memory(a, b))        # native arrays carried through the analysed code unchanged
+        if na or nb:
+            return False
         return a.buf is b.buf
 
     def is_array(self, v):
@@ -762,7 +775,29 @@ class ConcKit(KitBase):
         pass
 
     def stubbed(self, target, replacement, reason, thunk):
-        return thunk()
+        """Native counterpart: the module-level function (or class attribute) is replaced for the duration of thunk()."""
+        import sys
+        mod = sys.modules.get(getattr(target, "__module__", None))
+        qual = getattr(target, "__qualname__", "")
+        owner = mod
+        parts = qual.split(".") if qual and "<locals>" not in qual else []
+        for pth in parts[:-1]:
+            owner = getattr(owner, pth, None)
+        name = parts[-1] if parts else None
+        if owner is None or name is None or owner.__dict__.get(name) is None:
+            return thunk()              # cannot be replaced natively (e.g. a property getter): the real function runs
+        orig = owner.__dict__[name]
+        if orig is not target and getattr(orig, "__func__", None) is not target:
+            return thunk()
+
+        def repl(*a, **k):
+            r = replacement(*a, **k)
+            return target(*a, **k) if r is DECLINE else r
+        setattr(owner, name, repl)
+        try:
+            return thunk()
+        finally:
+            setattr(owner, name, orig)
 
     def native_attr(self, obj, name):
         return getattr(obj, name)
